@@ -182,7 +182,7 @@ Definition c09_one (c : pipe_case) (w : raw_req) (o : obs_resp) : bool :=
      | Some (RT TGet), Some op =>
          match o_kind op with
          | KQuery => true
-         | _ => quietb (ob_events o) && Nat.leb 400 (ob_status o)
+         | _ => quietb (ob_events o) && negb (ob_has_data o)   (* refused: 406, or an earlier gate said no *)
          end
      | _, _ => true
      end
